@@ -139,6 +139,27 @@ PROPS["C15"] = dict(
     assumptions=COMMON_ASSUME,
 )
 
+PROPS["C06"] = dict(
+    title="'established' iff upstream is; failures get one complete reply",
+    level="fault_enumeration",
+    technique="end-to-end monitor: strict per-protocol reply parser over the complete client byte stream until EOF, joined on one clock with upstream-side events from harness origins and scripted fake upstream proxies",
+    text="For every listener protocol (http, https, socks5, socks5+auth, socks4a, CONNECT-over-QUIC) x outcome (reachable, upstream success delayed, closed port, upstream proxy refuses / answers garbage / closes before or after its reply / sends half a reply, explicit deny, no rule, feature not carried by the selected upstream, unsupported commands and headers, failed authentication, no acceptable method) x upstream kind (direct, http, socks5, socks4) the raw client records everything until EOF; oracle: success reply only when the upstream recorded its own establishment earlier on the same clock, then the tunnel echoes; otherwise exactly one well-formed failure reply (HTTP: head + exactly Content-Length body bytes) followed by EOF within 3 s; never both.",
+    note="trusted: harness fake upstreams and reply grammars (SOCKS5 method selection and RFC1929 status are accepted before the final reply); black-holed upstreams are not driven (no connect timeout to bound the wait)",
+    design_ref="DESIGN.md 3 C06",
+    steps=[e2e("c06")],
+    assumptions=COMMON_ASSUME,
+)
+PROPS["C13"] = dict(
+    title="idle tunnels closed after the configured timeout, and only then",
+    level="exploration",
+    technique="end-to-end monitor: /api/live idle_timeout wiring per listener kind + wall-clock close-window oracle with small timeouts (never early, never later than T+1s+slack), trickle and T=0 patterns",
+    text="Four proxies (timeouts absent, 0/0, idle 2/udp 4, idle 4/udp 2) x listener kinds (http, socks, reverse tcp, reverse udp, socks5 udp-associate, CONNECT-over-QUIC) x patterns (silent, trickle slower than the period for 3T, burst then silence): the idle_timeout reported by /api/live must equal the configured value (the only claim about the 600 s default), a silent tunnel must be closed within [T-0.3, T+1+3] s of the last echoed byte, a trickling tunnel must stay open, T=0 must still be open after 8 s, and the history record must end with the 'idle timeout' error.",
+    note="trusted: wall clock on a loaded machine (3 s slack; API unresponsive => inconclusive); no finite run shows 'never early' for 600 s",
+    design_ref="DESIGN.md 3 C13",
+    steps=[e2e("c13")],
+    assumptions=COMMON_ASSUME,
+)
+
 NOT_YET = {}
 
 
